@@ -195,6 +195,68 @@ def drive_transitions(dump, pairs):
     return cases, bad, covered
 
 
+def learn_and_compare(dump, start=0):
+    """The Python parser's state machine LEARNED through Parser.match_token (no reading of parser.py): starting from the pair (spec start
+    position, state 0) every (kind, look-ahead oracle) is driven; productions, error behaviour and the consistency of the induced
+    position -> state map are compared with the derived table.  -> (pairs, discrepancies, cases, covered transitions)"""
+    pairs = {json.dumps([]): start}
+    by = {json.dumps(e["state"]): (k, e) for k, e in enumerate(dump["states"])}
+    todo = [json.dumps([])]
+    done = set()
+    cases, bad, covered = 0, [], set()
+    while todo:
+        skey = todo.pop()
+        if skey in done:
+            continue
+        done.add(skey)
+        k, e = by[skey]
+        if e["isEnd"]:
+            continue
+        pst = pairs[skey]
+        for st in dump["steps"][k]:
+            kind, oracle, hit = st["kind"][1:], st["oracle"], st["hit"]
+            b = RecBuilder()
+            p = Parser(b)
+            nxt = {"S": "ScenarioLine", "E": "ExamplesLine", "N": "StepLine"}[oracle]
+            ctx = ParserContext(StubScanner([]), StubMatcher(), deque([Token(KLine(nxt), {"line": 2})]), [])
+            tok = Token(None if kind == "EOF" else KLine(kind), {"line": 1})
+            cases += 1
+            try:
+                new = p.match_token(pst, tok, ctx)
+            except Exception as x:  # noqa: BLE001
+                bad.append(dict(state=pst, kind=kind, oracle=oracle, what="exception " + repr(x)))
+                continue
+            if hit == 0:
+                exp_list = list(e["expected"])
+                ok = (new == pst and len(ctx.errors) == 1 and b.cur == [] and b.events == [] and (", ".join(exp_list) in str(ctx.errors[0])))
+                if not ok:
+                    bad.append(dict(state=pst, kind=kind, oracle=oracle, what="expected an unexpected-token error listing " + ", ".join(exp_list) + " and no move",
+                                    got=dict(new=new, errors=[str(x) for x in ctx.errors], events=b.events)))
+                continue
+            t = e["trans"][hit - 1]
+            covered.add((pst, hit))
+            exp_ev = [list(x) for x in t["prods"]]
+            got_ev = b.events[0] if b.events else b.cur
+            tkey = json.dumps(t["target"])
+            if got_ev != exp_ev or ctx.errors:
+                bad.append(dict(state=pst, kind=kind, oracle=oracle, what="transition differs", spec=dict(events=exp_ev),
+                                got=dict(new=new, events=got_ev, errors=[str(x) for x in ctx.errors])))
+                continue
+            if tkey in pairs:
+                if pairs[tkey] != new:
+                    bad.append(dict(state=pst, kind=kind, oracle=oracle, what="target state differs (position -> state map not functional)",
+                                    spec=dict(target_pairs_with=pairs[tkey]), got=dict(new=new)))
+            else:
+                pairs[tkey] = new
+                todo.append(tkey)
+    # distinct positions the table distinguishes must not have been merged wrongly is not required (65 -> 43 is a quotient), but every
+    # position must have been reached
+    missing = [s for s in by if s not in pairs]
+    if missing:
+        bad.append(dict(what=f"{len(missing)} grammar positions were never reached while learning (earlier discrepancies cut the exploration)"))
+    return pairs, bad, cases, covered
+
+
 if __name__ == "__main__":
     import sys, time, table as T
     t0 = time.time()
